@@ -144,6 +144,8 @@ static int decide(int site, bool finishing, bool force = false) {
 		if (next < 0) next = runnable[0];
 	}
 	if (next != g_cur || finishing) {
+		// recording a switch may allocate (vector growth): keep it out of TSan's sight whatever the caller's state
+		struct Ign { Ign() { if (__tsan_ignore_thread_begin) __tsan_ignore_thread_begin(__FILE__, __LINE__); } ~Ign() { if (__tsan_ignore_thread_end) __tsan_ignore_thread_end(__FILE__, __LINE__); } } ign;
 		++g_stats.switches;
 		g_stats.interleave_hash = mix64(g_stats.interleave_hash, ((uint64_t)g_slot[next].task_id << 32) | (uint32_t)site);
 		g_stats.interleave_hash = mix64(g_stats.interleave_hash, (uint64_t)g_slot[g_cur].task_id);
